@@ -205,7 +205,7 @@ PROPS = {
                 "completed 1 s / 6.5 s (thorough: up to 21 s) after the stream became visible, next to healthy ones; "
                 "non-trivial = distinct line with at least one stream",
         "extracted_keys": ["CAP_READY_UNI_WT", "CAP_READY_BI_WT", "HANDOFF_RESERVE_FIRST_UNI", "HANDOFF_RESERVE_FIRST_BI",
-                           "DRIVER_TIMER_FREE", "DRIVER_TIMER_HITS"],
+                           "DRIVER_TIMER_FREE", "DRIVER_TIMER_HITS", "DRIVER_SEMAPHORE_FREE"],
         "trusted": ["tokio mpsc Receiver::recv and quinn accept_* are cancel-safe (documented): an accept future dropped "
                     "before completion has taken nothing"],
         "assumptions": ["the peer does not exceed quinn's concurrent-stream limits (it cannot: QUIC enforces them)"],
